@@ -48,7 +48,15 @@ def _one(args):
     if rs:
         r = max(rs)   # the longest matched prefix
         return ('reject', r[0], r[1], r[2], states, time.time() - t0)
-    return ('machinery', out[-2500:])
+    if 'Model checking completed' in out and 'Error:' not in out:
+        # TLC explored every branch of the trace spec and none consumed the
+        # trace nor reached a REJECT line: no action of the specification
+        # explains the next event (total verdict: a rejection)
+        return ('reject', states[1], 'unexplained-event',
+                'no-action-of-the-specification-enabled', states,
+                time.time() - t0)
+    i = out.find('Error:')
+    return ('machinery', out[i:i + 2000] if i >= 0 else out[-2500:])
 
 
 def validate(module, cfg, recs, jobs=None):
